@@ -612,6 +612,97 @@ Proof.
   destruct res as [v|e]; [reflexivity|]. destruct e; try discriminate Hn. reflexivity.
 Qed.
 
+
+(* ------------------------------------------------------------------ where the reason comes from *)
+Lemma finalize_xr s r pend s' o : finalize s r pend = (s', o) -> RE_ExitFrame.xr P D s' = RE_ExitFrame.xr P D s.
+Proof.
+  unfold RE.finalize.
+  destruct (stop_movables (RE.set_pardon P D s true)) as [s2 o2] eqn:E2. apply (stop_movables_xr P D dev) in E2.
+  match goal with |- context [fold_left ?f ?l ?a] => destruct (fold_left f l a) as [s3 o3] eqn:E3 end.
+  assert (E3' : RE_ExitFrame.xr P D s3 = RE_ExitFrame.xr P D s2).
+  { revert E3. generalize (RE.staged P D s2) (@nil obs). intros l. generalize s2.
+    induction l as [|d0 l IH]; intros sx o0 H; cbn in H.
+    - inversion H; subst; reflexivity.
+    - destruct (dcall sx d0 MUnstage) as [[sa ra] oa] eqn:E. apply (dcall_xr P D dev) in E. apply IH in H. congruence. }
+  unfold RE.set_state. destruct (allowed _ Idle); intros H; inversion H; subst; unfold RE_ExitFrame.xr in *; simp_st; congruence.
+Qed.
+
+(* the reason recorded in an engine-made RunStop is "" or the reason of an abort request: [reason]
+   is written by nothing else (RsExnText is substituted by the finally block when the task failed) *)
+Theorem reason_provenance s e s' o :
+  step s e = (s', o) -> ~ In (OBad 1) o ->
+  reason s' = reason s \/ reason s' = RsEmpty \/ exists rs, e = EvReqAbort rs /\ reason s' = rs.
+Proof.
+  intros Hs Hb. destruct (is_task e) eqn:Et.
+  - destruct e; try discriminate Et. cbn [RE.step] in Hs.
+    destruct (task_step_classified _ _ _ Hs Hb) as
+      [s1 x os1 Hv Es -> _ | s1 e1 os1 Hv Es -> _ | r Hp Hf | _ Hx _ | _ Hx _ _ | _ Hx _ _ _ _].
+    + destruct (visited_fields _ _ _ _ Hv) as (_ & _ & C & _). simp_st. rewrite C. destruct (pc s); auto.
+    + destruct (visited_fields _ _ _ _ Hv) as (_ & _ & C & _).
+      destruct (finalize (fail_state s1 e1) (TReturn NO_RETURN) (Some (raised_of e1))) as [sx ox] eqn:Ef.
+      apply finalize_xr in Ef. cbn [fst]. unfold RE_ExitFrame.xr in Ef. inversion Ef as [[A B E]].
+      assert (Hr : reason (fail_state s1 e1) = reason s1) by (unfold fail_state; destruct e1; reflexivity).
+      rewrite B, Hr, C. destruct (pc s); auto.
+    + symmetry in Hf. apply finalize_xr in Hf. unfold RE_ExitFrame.xr in Hf. inversion Hf. left. simp_st. congruence.
+    + unfold RE_ExitFrame.xr in Hx. inversion Hx as [[A B E]]. rewrite B. destruct (pc s); auto.
+    + unfold RE_ExitFrame.xr in Hx. inversion Hx. auto.
+    + unfold RE_ExitFrame.xr in Hx. inversion Hx. auto.
+  - destruct (accepted_call s e) eqn:Ea.
+    + destruct e as [a| | | | | | | | | | | |]; try discriminate Ea. destruct a; try discriminate Ea.
+      cbn [accepted_call] in Ea. apply rstate_eqb_true in Ea.
+      destruct (step_call _ _ _ _ Ea Hs) as (_ & _ & E & _). auto.
+    + destruct (step_nontask _ _ _ _ Et Ea Hs) as (_ & _ & C).
+      destruct e; cbn [override_at] in C; try (inversion C; auto; fail).
+      * destruct (rstate_eqb (state s) Idle); inversion C; [auto|]. right; right. eexists; split; reflexivity.
+      * destruct (rstate_eqb (state s) Paused); inversion C; auto.
+Qed.
+
+(* ------------------------------------------------------------------ the decision, computed *)
+Fixpoint find_exit (fuel : nat) (s : st) (c : ctl) (os : list obs) : option (st * xkind * list obs) :=
+  match c with
+  | CExit x => Some (s, x, os)
+  | _ => match fuel with
+         | 0 => None
+         | S k => match dstep s c os with
+                  | inl (s1, c1, os1) => find_exit k s1 c1 os1
+                  | inr _ => None
+                  end
+         end
+  end.
+
+Definition decision (s : st) : option (st * xkind * list obs) :=
+  match tentry s with
+  | inl (s1, c1, os1) => find_exit (RE.FUEL P D s1) s1 c1 os1
+  | inr _ => None
+  end.
+
+Lemma find_exit_S k s c os :
+  is_exit c = false ->
+  find_exit (S k) s c os = match dstep s c os with
+                           | inl (s1, c1, os1) => find_exit k s1 c1 os1
+                           | inr _ => None
+                           end.
+Proof. destruct c; intros H; try discriminate H; reflexivity. Qed.
+
+Lemma find_exit_dreach fuel : forall s c os s1 x os1,
+  find_exit fuel s c os = Some (s1, x, os1) -> dreach (s, c, os) (s1, CExit x, os1).
+Proof.
+  induction fuel as [|k IH]; intros s c os s1 x os1 H.
+  - destruct c; try discriminate H. inversion H; subst. apply dreach_refl.
+  - destruct (is_exit c) eqn:Ec.
+    + destruct c; try discriminate Ec. inversion H; subst. apply dreach_refl.
+    + rewrite (find_exit_S _ _ _ _ Ec) in H.
+      destruct (dstep s c os) as [[[sm cm] om]|r] eqn:Hst; [|discriminate H].
+      eapply dreach_step; [exact Hst | apply IH; exact H].
+Qed.
+
+Theorem decision_visited s s1 x os1 : decision s = Some (s1, x, os1) -> visited s (s1, CExit x, os1).
+Proof.
+  unfold decision. destruct (tentry s) as [[[sa ca] osa]|r] eqn:Et; [|discriminate].
+  
+  intros H. exists (sa, ca, osa). split; [exact Et | apply find_exit_dreach with (fuel := RE.FUEL P D sa); exact H].
+Qed.
+
 (* ================================================================== C02, end to end *)
 Section Schedule.
 Variables (d : D) (paus stag : list nat) (rec : bool).
